@@ -505,6 +505,17 @@ func OpaqueDispatch(fn *ssa.Function) string {
 					return true
 				}
 			}
+		case *ssa.Parameter:
+			// a list of functions handed to a driver
+			switch t := x.Type().Underlying().(type) {
+			case *types.Slice:
+				_, isFn := t.Elem().Underlying().(*types.Signature)
+				return isFn
+			case *types.Array:
+				_, isFn := t.Elem().Underlying().(*types.Signature)
+				return isFn
+			}
+			return false
 		case *ssa.Alloc:
 			// a local copy of a table entry (the loop variable of `for _, step := range steps`)
 			if x.Referrers() != nil {
@@ -531,8 +542,31 @@ func OpaqueDispatch(fn *ssa.Function) string {
 		return false
 	}
 	// (exported functions are API with a meaning of their own: what they do inside is theirs)
+	// only a step that can report a verdict (an error or a boolean among its results) can stand
+	// in for a check
+	reports := func(sig *types.Signature) bool {
+		if sig == nil {
+			return false
+		}
+		for i := 0; i < sig.Results().Len(); i++ {
+			t := sig.Results().At(i).Type()
+			if isErrorType(t) {
+				return true
+			}
+			if b, ok := t.Underlying().(*types.Basic); ok && b.Kind() == types.Bool {
+				return true
+			}
+			if _, ok := t.Underlying().(*types.Struct); ok {
+				return true // a result record
+			}
+		}
+		return false
+	}
 	for _, dc := range AllDeepCalls(fn, exportedFunc) {
 		cm := dc.Call.Common()
+		if !reports(cm.Signature()) {
+			continue
+		}
 		if cm.IsInvoke() {
 			if named, ok := cm.Value.Type().(*types.Named); ok {
 				obj := named.Obj()
